@@ -380,3 +380,68 @@ def _load_outfail_unconfirmed():
 
 
 OUTFAIL_EXCEPT = _load_outfail_unconfirmed()
+
+
+ATTR_GUARD_ALLOWED = {"options", "nlones", "visited"}  # confirmed on the pinned tree: inspection mode, 'there are lone Vgroups', 'not yet copied'
+
+
+def rule_attr_copy_unconditional(ctx):
+    """ATTRCOND (C18): the attributes of an object are copied whenever the object is copied.  The calls that copy attributes
+    (copy_sds_attrs for data sets, dimensions and the file; copy_gr_attrs; copy_vgroup_attrs; copy_vdata_attribute) are guarded
+    only by conditions about the run (inspection mode), about whether the object has been copied already, and by their own
+    `count != 0` test — never by a property of the object's *data* (a scale type, a record count, a size): an object without
+    that data still has its attributes."""
+    from .codec import ast_walk
+    prog = ctx.prog
+    n = 0
+    for f in prog.funcs:
+        if "mfhdf/hrepack/" not in f.rel or f.rel.endswith(SKIP_FILES):
+            continue
+        sites = []
+
+        def vis(nn, st):
+            exprs = [nn[1]] if nn[0] in ("s", "if", "while") else []
+            for e in exprs:
+                for c in calls_in(e, True):
+                    if c[1] and c[1].startswith("copy_") and "attr" in c[1]:
+                        sites.append((c, [a[1] for a in st if a[0] == "if"]))
+            return True
+        ast_walk(f.raw.get("ast"), vis)
+        for k, (c, conds) in enumerate(sites):
+            n += 1
+            key = "ATTRCOND:%s:%s#%d" % (f.name, c[1], k + 1)
+            names = {y[1] for cd in conds for y in walk(cd, True) if y[0] == "var"}
+            extra = sorted(names - ATTR_GUARD_ALLOWED)
+            if extra:
+                ctx.violated("ATTRCOND", key, f.where(c[5]), "%s() is called only when a condition on `%s` holds (%s): objects for which it does not hold lose their attributes in the copy" % (
+                    c[1], "`, `".join(extra), "; ".join(render(cd)[:40] for cd in conds)))
+            else:
+                ctx.holds("ATTRCOND", key, f.where(c[5]), "guarded only by %s" % (", ".join(render(cd)[:30] for cd in conds) or "its own result test"), nontrivial=True)
+    ctx.floor("ATTRCOND", 8, n, "(attribute-copy calls in hrepack)")
+    return n
+
+
+def rule_copy_interlace_pair(ctx):
+    """RWIL (C18): a routine that copies records with VSread followed by VSwrite passes the same interlace to both: the buffer
+    VSread fills is laid out as the interlace argument says, and VSwrite interprets it by *its* interlace argument.  Different
+    arguments scramble the field values of every NO_INTERLACE Vdata."""
+    prog = ctx.prog
+    n = 0
+    for f in prog.funcs:
+        if "mfhdf/hrepack/" not in f.rel or f.rel.endswith(SKIP_FILES):
+            continue
+        rd = [c for _b, _i, _s, c in f.calls() if c[1] == "VSread" and len(c[3]) >= 4]
+        wr = [c for _b, _i, _s, c in f.calls() if c[1] == "VSwrite" and len(c[3]) >= 4]
+        if not rd or not wr:
+            continue
+        n += 1
+        key = "RWIL:%s" % f.name
+        ri = {render(strip(c[3][3])) for c in rd}
+        wi = {render(strip(c[3][3])) for c in wr}
+        if ri == wi and len(ri) == 1:
+            ctx.holds("RWIL", key, f.where(rd[0][5]), "VSread and VSwrite both use `%s`" % next(iter(ri)), nontrivial=True)
+        else:
+            ctx.violated("RWIL", key, f.where(rd[0][5]), "records are read with interlace %s and written with interlace %s: for a NO_INTERLACE Vdata the buffer is interpreted with the wrong layout" % (
+                "/".join(sorted(ri)), "/".join(sorted(wi))))
+    ctx.floor("RWIL", 1, n, "(hrepack routines that read and write Vdata records)")
+    return n
